@@ -5,6 +5,8 @@
 use core::convert::TryFrom;
 use core::marker::PhantomData;
 use std::prelude::v1::*;
+#[cfg(kani)]
+use core::{assert, unreachable};
 
 /// Wrapper around const slices.
 ///
@@ -306,4 +308,9 @@ impl<'a, T> core::ops::DerefMut for CSliceMut<'a, T> {
     fn deref_mut(&mut self) -> &mut Self::Target {
         unsafe { core::slice::from_raw_parts_mut(self.data, self.len) }
     }
+}
+
+#[cfg(kani)]
+mod verif_kani {
+    include!(concat!(env!("H33P_CGLUE_VERIF_DIR"), "/slice.rs"));
 }
